@@ -338,6 +338,41 @@ theorem rejected_op_changes_nothing (env : Env) (ret : Int) (maxSil : Nat) (now 
           | ok x => simp [hs] at h; rw [h]
           | error er => cases er <;> simp [hs] at h
 
+/-- One bad matcher set anywhere in the list - first or later - (empty, a malformed matcher, or only matchers
+    that match the empty string) makes the whole request invalid: the verdict on a set does not depend on
+    the sets before it. -/
+theorem validate_false_of_bad_set (env : Env) (sets : MatcherSets) (start : Int) (stop : Option Int)
+    (ms : List Matcher) (hm : ms ∈ sets) (hb : setValid env ms = false) :
+    validate env sets start stop = false := by
+  unfold validate
+  have : sets.all (setValid env) = false := by
+    rw [List.all_eq_false]
+    exact ⟨ms, hm, by simp [hb]⟩
+  simp [this]
+
+/-- A request that is invalid on its own terms is refused by `Set` and by the API, whatever the store
+    holds (and so leaves it alone: a refusal carries no store). -/
+theorem invalid_input_rejected (env : Env) (ret : Int) (maxSil : Nat) (now : Int) (s : Store) (inp : SilIn)
+    (newId : String) (big : Bool) (h : validate env inp.sets (inp.start.getD now) inp.stop = false) :
+    set env ret maxSil now s inp newId big = .error .invalid ∧
+    (match apiPost env ret maxSil now s inp newId big with | .ok _ => False | _ => True) := by
+  have hs : set env ret maxSil now s inp newId big = .error .invalid := by
+    unfold set; simp [h]
+  refine ⟨hs, ?_⟩
+  unfold apiPost
+  cases ha : inp.start with
+  | none => simp
+  | some a =>
+    cases he : inp.stop with
+    | none => simp
+    | some e =>
+      simp only []
+      by_cases h1 : a ≥ e
+      · simp [h1]
+      · by_cases h2 : e < now
+        · simp [h1, h2]
+        · simp [h1, h2, hs]
+
 /-! ### expiry -/
 
 /-- Expiring takes effect immediately: from the next instant on the silence is expired. -/
